@@ -66,27 +66,51 @@ def pushed (inst : Instance) (g : Nat) (s : St) : St :=
   { s with stack := s.stack ++ [⟨inst.coind g, false⟩],
            graph := s.graph ++ [⟨g, initialValue (inst.coind g), some s.stack.length, some s.graph.length⟩] }
 
+/-- the cache lookup at the head of `solve_goal` (`none` also when caching is disabled) -/
+def cacheLookup (s : St) (g : Nat) : Option V :=
+  match s.cache with
+  | some c => cacheGet c g
+  | none => none
+
+theorem inCache_iff_lookup (s : St) (g : Nat) (v : V) : InCache s g v ↔ cacheLookup s g = some v := by
+  unfold InCache cacheLookup
+  cases s.cache with
+  | none => simp
+  | some cc => simp
+
 theorem solveGoal_new (inst : Instance) (cfg : Cfg) (d g : Nat) (m : Min) (s s0 : St)
-    (ht : tick cfg s = .ok () s0)
-    (cc : List (Nat × V)) (hcc : s0.cache = some cc) (hc : cacheGet cc g = none)
+    (ht : tick cfg s = .ok () s0) (hc : cacheLookup s0 g = none)
     (hl : lookup s0.graph g = none) (hov : ¬ cfg.overflowDepth ≤ s0.stack.length) :
     solveGoal inst cfg (d + 1) g m s =
       match solveNewSubgoal inst cfg (solveGoal inst cfg d) g s0.stack.length s0.graph.length cfg.rounds
           (pushed inst g s0) with
       | .panic site s' => .panic site s'
       | .ok sub s3 => finishGoal cfg m s0.stack.length s0.graph.length sub s3 := by
-  simp only [solveGoal, ht, hcc, hc, hl, push, hov, if_false, pushed, finishGoal]
-  rfl
+  unfold cacheLookup at hc
+  cases hcc : s0.cache with
+  | none =>
+    simp only [solveGoal, ht, hcc, hl, push, hov, if_false, pushed, finishGoal]
+    rfl
+  | some cc =>
+    rw [hcc] at hc
+    simp only at hc
+    simp only [solveGoal, ht, hcc, hc, hl, push, hov, if_false, pushed, finishGoal]
+    rfl
 
 theorem solveGoal_cached (inst : Instance) (cfg : Cfg) (d g : Nat) (m : Min) (s s0 : St) (v : V)
-    (ht : tick cfg s = .ok () s0) (cc : List (Nat × V)) (hcc : s0.cache = some cc)
-    (hc : cacheGet cc g = some v) :
+    (ht : tick cfg s = .ok () s0) (hc : cacheLookup s0 g = some v) :
     solveGoal inst cfg (d + 1) g m s = .ok (v, m) s0 := by
-  simp only [solveGoal, ht, hcc, hc]
+  unfold cacheLookup at hc
+  cases hcc : s0.cache with
+  | none => rw [hcc] at hc; cases hc
+  | some cc =>
+    rw [hcc] at hc
+    simp only at hc
+    simp only [solveGoal, ht, hcc, hc]
 
 theorem solveGoal_hit (inst : Instance) (cfg : Cfg) (d g : Nat) (m : Min) (s s0 : St)
-    (ht : tick cfg s = .ok () s0) (cc : List (Nat × V)) (hcc : s0.cache = some cc)
-    (hc : cacheGet cc g = none) (dfn : Nat) (hl : lookup s0.graph g = some dfn) (node : Node)
+    (ht : tick cfg s = .ok () s0) (hc : cacheLookup s0 g = none)
+    (dfn : Nat) (hl : lookup s0.graph g = some dfn) (node : Node)
     (hn : s0.graph[dfn]? = some node) :
     solveGoal inst cfg (d + 1) g m s =
       match node.stackDepth with
@@ -96,19 +120,32 @@ theorem solveGoal_hit (inst : Instance) (cfg : Cfg) (d g : Nat) (m : Min) (s s0 
           .ok (errorValue, m) { s0 with stack := setCycle true depth s0.stack }
         else .ok (node.solution, Min.updateFrom m node.links) { s0 with stack := setCycle true depth s0.stack }
       | none => .ok (node.solution, Min.updateFrom m node.links) s0 := by
-  simp only [solveGoal, ht, hcc, hc, hl, hn]
-  rfl
+  unfold cacheLookup at hc
+  cases hcc : s0.cache with
+  | none =>
+    simp only [solveGoal, ht, hcc, hl, hn]
+    rfl
+  | some cc =>
+    rw [hcc] at hc
+    simp only at hc
+    simp only [solveGoal, ht, hcc, hc, hl, hn]
+    rfl
 
 theorem solveGoal_tick_panic (inst : Instance) (cfg : Cfg) (d g : Nat) (m : Min) (s s0 : St) (site : Site)
     (ht : tick cfg s = .panic site s0) : solveGoal inst cfg (d + 1) g m s = .panic site s0 := by
   simp only [solveGoal, ht]
 
 theorem solveGoal_overflow (inst : Instance) (cfg : Cfg) (d g : Nat) (m : Min) (s s0 : St)
-    (ht : tick cfg s = .ok () s0) (cc : List (Nat × V)) (hcc : s0.cache = some cc)
-    (hc : cacheGet cc g = none) (hl : lookup s0.graph g = none)
+    (ht : tick cfg s = .ok () s0) (hc : cacheLookup s0 g = none) (hl : lookup s0.graph g = none)
     (hov : cfg.overflowDepth ≤ s0.stack.length) :
     solveGoal inst cfg (d + 1) g m s = .panic .overflow s0 := by
-  simp only [solveGoal, ht, hcc, hc, hl, push, hov, if_true]
+  unfold cacheLookup at hc
+  cases hcc : s0.cache with
+  | none => simp only [solveGoal, ht, hcc, hl, push, hov, if_true]
+  | some cc =>
+    rw [hcc] at hc
+    simp only at hc
+    simp only [solveGoal, ht, hcc, hc, hl, push, hov, if_true]
 
 /-! ### stack-only changes -/
 
@@ -119,9 +156,8 @@ theorem Inv.stackChange {s s' : St} (h : Inv c inst dom s) (hg : s'.graph = s.gr
     (hext : StackExt s.stack s'.stack) : Inv c inst dom s' := by
   have hwit : ∀ {lb : Min} {j : Nat}, Wit c inst s lb j → Wit c inst s' lb j :=
     fun hw => hw.from0 ⟨[], by rw [hg, List.append_nil]⟩ (fun d hd => hext.flag hd)
-  refine ⟨?_, ?_, fun k v hk => h.cacheOK k v (R.inCache.mp hk), ?_, ?_, ?_, ?_, ?_, ?_, ?_, ?_, ?_, ?_⟩
+  refine ⟨?_, fun k v hk => h.cacheOK k v (R.inCache.mp hk), ?_, ?_, ?_, ?_, ?_, ?_, ?_, ?_, ?_, ?_⟩
   · rw [R.oracle, R.oracleDefault, R.interrupted]; exact h.quiet
-  · rw [R.cache]; exact h.cacheOn
   · intro e' he'
     obtain ⟨i, hi⟩ := List.getElem?_of_mem he'
     have hlt : i < s.stack.length := by rw [← hext.1]; exact getElem?_lt_length hi
@@ -164,7 +200,7 @@ theorem Step.stackOnly {s s' : St} (hg : s'.graph = s.graph) (R : Rest s s')
       obtain ⟨i, n, hn, h2⟩ := h
       exact Or.inr ⟨i, n, by rw [hg]; exact hn, h2⟩
   refine ⟨⟨[], by rw [hg, List.append_nil], fun n hn => by cases hn⟩, hext,
-    fun k v h => R.inCache.mpr h, hd, ?_⟩
+    fun k v h => R.inCache.mpr h, hd, ?_, by rw [R.cache]⟩
   intro k hu hdef
   exfalso
   cases hdef with
@@ -225,7 +261,7 @@ theorem push_loopSt (hyp : Hyp c inst dom) {s0 : St} (i0 : Inv c inst dom s0) {g
     exact single_cases _ _ i n hn
   have hcache : ∀ k v, InCache (pushed inst g s0) k v ↔ InCache s0 k v := fun k v => Iff.rfl
   have hinv : Inv c inst dom (pushed inst g s0) := by
-    refine ⟨i0.quiet, i0.cacheOn, i0.cacheOK, ?_, ?_, ?_, ?_, ?_, ?_, ?_, ?_, ?_, ?_⟩
+    refine ⟨i0.quiet, i0.cacheOK, ?_, ?_, ?_, ?_, ?_, ?_, ?_, ?_, ?_, ?_⟩
     · intro e he
       rw [hst] at he
       cases List.mem_append.mp he with
@@ -274,7 +310,7 @@ theorem push_loopSt (hyp : Hyp c inst dom) {s0 : St} (i0 : Inv c inst dom s0) {g
       cases hnode hn with
       | inl h => exact J.mono (fun j hj => hj.from0 ⟨_, hgr⟩ hflag) (i0.just i n h.2 hd htop)
       | inr h => rw [h.2] at hd; cases hd
-  refine ⟨i0, hu, hg, hinv, ⟨top c, hgr⟩, hlen, hsext, fun k v h => h, ?_⟩
+  refine ⟨i0, hu, hg, hinv, ⟨top c, hgr⟩, hlen, hsext, fun k v h => h, ?_, rfl⟩
   intro k hu' hd
   exfalso
   cases hd with
@@ -287,7 +323,7 @@ theorem push_loopSt (hyp : Hyp c inst dom) {s0 : St} (i0 : Inv c inst dom s0) {g
 
 theorem LoopSt.work {s0 st : St} {g : Nat} (L : LoopSt c inst dom s0 g st) (w : Nat) :
     LoopSt c inst dom s0 g { st with work := w } :=
-  ⟨L.i0, L.u0, L.gdom, L.inv.work w, L.graph, L.slen, L.sext, L.cacheExt, L.low⟩
+  ⟨L.i0, L.u0, L.gdom, L.inv.work w, L.graph, L.slen, L.sext, L.cacheExt, L.low, L.cacheMode⟩
 
 end
 
